@@ -18,6 +18,9 @@ func (servers Servers) Validate(ctx context.Context, opts ...ValidationOption) e
 	ctx = WithValidationOptions(ctx, opts...)
 
 	for _, v := range servers {
+		if v == nil {
+			return errors.New("server must be an object")
+		}
 		if err := v.Validate(ctx); err != nil {
 			return err
 		}
